@@ -95,8 +95,9 @@ type wlEntry struct {
 }
 
 type wlStep struct {
-	Kind    string    `json:"kind"` // batch | rot | flush | move | gc
-	Entries []wlEntry `json:"entries,omitempty"`
+	Kind    string      `json:"kind"` // batch | cbatch | rot | flush | move | gc
+	Entries []wlEntry   `json:"entries,omitempty"`
+	Reqs    [][]wlEntry `json:"reqs,omitempty"` // cbatch: transactions committed concurrently (one commit batch)
 }
 
 type wlConfig struct {
@@ -107,6 +108,7 @@ type wlConfig struct {
 	VlogSize  int      `json:"vlogsize"`
 	Threshold int64    `json:"threshold"`
 	ManRewr   int64    `json:"manifest_rewrite"`
+	BatchWait int      `json:"batch_wait_ms,omitempty"` // WriteBatchWait: concurrent commits share a commit batch
 	Steps     []wlStep `json:"steps"`
 }
 
@@ -127,7 +129,7 @@ func options(dir string, cfg *wlConfig) *NoKV.Options {
 	opt.WriteHotKeyLimit = 0
 	opt.NumCompactors = 1
 	opt.ValueLogGCInterval = 0
-	opt.WriteBatchWait = 0
+	opt.WriteBatchWait = time.Duration(cfg.BatchWait) * time.Millisecond
 	opt.DetectConflicts = true
 	return opt
 }
@@ -149,6 +151,7 @@ type vaEv struct {
 	key, vid    int
 	rot         bool
 	used        bool
+	req         int
 }
 
 type stepRec struct {
@@ -165,6 +168,11 @@ type stepRec struct {
 	moveLvl  int
 	skipped  bool
 	hord     []uint64
+	// commit batches of several requests
+	reqSizes   []int
+	reqSeen    int
+	groupStart []int
+	hordReq    map[int][]uint64
 }
 
 type crashRun struct {
@@ -197,6 +205,7 @@ type crashRun struct {
 	totalRecs  int // records handed to the engine so far
 	hookErr    string
 	versionsUp bool
+	maxGroup   int
 }
 
 func valueBytes(vid, size int) []byte {
@@ -371,6 +380,13 @@ func (r *crashRun) fsOp(op int, name, name2 string, data []byte) {
 		switch name {
 		case "commit.vlog":
 			r.phase = "apply"
+			if r.cur != nil {
+				r.cur.groupStart = append(r.cur.groupStart, r.cur.reqSeen)
+			}
+		case "commit.head":
+			if r.cur != nil {
+				r.cur.reqSeen++
+			}
 		case "commit.applied":
 			r.phase = "sync"
 		case "commit.ack":
@@ -444,6 +460,10 @@ func (r *crashRun) fsOp(op int, name, name2 string, data []byte) {
 					var b, f uint64
 					if n, _ := fmt.Sscanf(t, "VH %d %d", &b, &f); n == 2 {
 						r.cur.hord = append(r.cur.hord, b)
+						if r.cur.hordReq == nil {
+							r.cur.hordReq = map[int][]uint64{}
+						}
+						r.cur.hordReq[r.cur.reqSeen] = append(r.cur.hordReq[r.cur.reqSeen], b)
 					}
 				}
 			}
@@ -555,6 +575,71 @@ func (r *crashRun) doBatch(db *NoKV.DB, st wlStep) error {
 	}
 	r.endStep(len(st.Entries))
 	r.ack()
+	return nil
+}
+
+// doCBatch commits several transactions with CommitWith from one goroutine: they take their
+// commit timestamps and enter the commit queue in this order and (WriteBatchWait) are normally
+// coalesced into one commit batch; the grouping actually used is read off the hooks.
+func (r *crashRun) doCBatch(db *NoKV.DB, st wlStep) error {
+	s := r.beginStep("cbatch")
+	total := 0
+	chans := make([]chan error, len(st.Reqs))
+	txns := make([]*NoKV.Txn, len(st.Reqs))
+	for j := range st.Reqs {
+		for i := range st.Reqs[j] {
+			e := &st.Reqs[j][i]
+			if !e.Del {
+				r.nextVid++
+				e.vid = r.nextVid
+				r.values[string(valueBytes(e.vid, e.Size))] = e.vid
+			}
+		}
+		txn := db.NewTransaction(true)
+		for _, e := range st.Reqs[j] {
+			var err error
+			if e.Del {
+				err = txn.Delete(crashKeys[e.Key-1])
+			} else {
+				err = txn.Set(crashKeys[e.Key-1], valueBytes(e.vid, e.Size))
+			}
+			if err != nil {
+				return err
+			}
+		}
+		txns[j] = txn
+		s.reqSizes = append(s.reqSizes, len(st.Reqs[j]))
+		total += len(st.Reqs[j])
+	}
+	for j := range st.Reqs {
+		ch := make(chan error, 1)
+		chans[j] = ch
+		txns[j].CommitWith(func(e error) { ch <- e })
+	}
+	// the records are counted as handed over before the first acknowledgement is reported
+	var firstErr error
+	ended := false
+	for j := range st.Reqs {
+		err := <-chans[j]
+		if err != nil && firstErr == nil {
+			firstErr = err
+		}
+		if !ended {
+			// every request of the step was enqueued; acknowledgements arrive commit batch by commit batch
+			ended = true
+		}
+		if err == nil {
+			r.mu.Lock()
+			r.acked++
+			r.addPoint("ack")
+			r.mu.Unlock()
+		}
+	}
+	if firstErr != nil {
+		r.endStep(0)
+		return firstErr
+	}
+	r.endStep(total)
 	return nil
 }
 
@@ -869,7 +954,7 @@ func (r *crashRun) stepTerms() ([]string, error) {
 			if !s.skipped {
 				out = append(out, fmt.Sprintf("SMv %s %d", corr.ListN(s.moved), s.moveLvl))
 			}
-		case "batch", "gc":
+		case "batch", "gc", "cbatch":
 			if s.kind == "gc" && s.skipped {
 				continue
 			}
@@ -882,12 +967,25 @@ func (r *crashRun) stepTerms() ([]string, error) {
 					border = append(border, uint64(va.bucket))
 				}
 			}
+			// request boundaries inside the step (one request unless it is a concurrent batch)
+			reqOf := make([]int, s.n)
+			firstOf := map[int]bool{0: true}
+			if s.kind == "cbatch" {
+				pos := 0
+				for j, sz := range s.reqSizes {
+					firstOf[pos] = true
+					for x := 0; x < sz; x++ {
+						reqOf[pos+x] = j
+					}
+					pos += sz
+				}
+			}
 			for i := 0; i < s.n; i++ {
 				g := G[s.start+i]
 				k := r.keyID(g.Key)
 				ver := kv.ParseTs(g.Key)
-				if r.cfg.Txn && s.kind == "batch" {
-					if i == 0 {
+				if r.cfg.Txn && s.kind != "gc" {
+					if firstOf[i] {
 						if ver <= lastVer {
 							r.versionsUp = false
 						}
@@ -917,6 +1015,7 @@ func (r *crashRun) stepTerms() ([]string, error) {
 						if !va.used && va.key == k && va.bucket == vp.Bucket && va.fid == vp.Fid {
 							vid, vrot, found = va.vid, va.rot, true
 							va.used = true
+							va.req = reqOf[i]
 							break
 						}
 					}
@@ -929,7 +1028,35 @@ func (r *crashRun) stepTerms() ([]string, error) {
 				ents = append(ents, fmt.Sprintf("En %d %d %s %d %s %s %s %d", k, vid, coqBool(del), loc,
 					coqBool(has(s.mrotAt, i)), coqBool(has(s.spillAt, i)), coqBool(vrot), vrank))
 			}
-			if s.kind == "batch" {
+			if s.kind == "cbatch" {
+				if s.reqSeen != len(s.reqSizes) {
+					return nil, fmt.Errorf("concurrent batch: %d requests committed, %d seen by the commit worker", len(s.reqSizes), s.reqSeen)
+				}
+				var reqTerms []string
+				pos := 0
+				for j, sz := range s.reqSizes {
+					var rb []uint64
+					seen := map[uint32]bool{}
+					for _, va := range s.vas {
+						if va.used && va.req == j && !seen[va.bucket] {
+							seen[va.bucket] = true
+							rb = append(rb, uint64(va.bucket))
+						}
+					}
+					reqTerms = append(reqTerms, fmt.Sprintf("Rq %s %s %s", corr.List(ents[pos:pos+sz]), corr.ListN(rb), corr.ListN(s.hordReq[j])))
+					pos += sz
+				}
+				for gi, st := range s.groupStart {
+					end := len(reqTerms)
+					if gi+1 < len(s.groupStart) {
+						end = s.groupStart[gi+1]
+					}
+					if end > st {
+						out = append(out, "SCB "+corr.List(reqTerms[st:end]))
+						r.maxGroup = max(r.maxGroup, end-st)
+					}
+				}
+			} else if s.kind == "batch" {
 				out = append(out, fmt.Sprintf("SB %s %s %s", corr.List(ents), corr.ListN(border), corr.ListN(s.hord)))
 			} else {
 				out = append(out, fmt.Sprintf("SGc %d %d %s %s %s", s.gcBucket, s.gcFid, corr.List(ents), corr.ListN(border), corr.ListN(s.hord)))
@@ -980,6 +1107,10 @@ func runWorkload(c *corr.Ctx, cfg *wlConfig, label string) error {
 			if err := r.doBatch(db, st); err != nil {
 				return fmt.Errorf("batch failed: %w", err)
 			}
+		case "cbatch":
+			if err := r.doCBatch(db, st); err != nil {
+				return fmt.Errorf("concurrent batch failed: %w", err)
+			}
 		case "rot":
 			r.doRotate(db)
 		case "flush":
@@ -1008,6 +1139,10 @@ func runWorkload(c *corr.Ctx, cfg *wlConfig, label string) error {
 	}
 	if !r.versionsUp {
 		return errors.New("commit versions of successive transactions are not increasing")
+	}
+	if r.maxGroup > 1 {
+		c.Count("workloads_with_multi_request_commit_batch")
+		c.CountN("max_requests_in_commit_batch_sum", r.maxGroup)
 	}
 	// reopen every distinct crash image once
 	curRun = nil
@@ -1089,6 +1224,28 @@ func genWorkload(c *corr.Ctx, txn, sync bool) *wlConfig {
 	for b := 0; b < nb; {
 		x := rng.Intn(100)
 		switch {
+		case x < 10 && txn:
+			cfg.BatchWait = 5
+			var reqs [][]wlEntry
+			for q := 0; q < 2+rng.Intn(2); q++ {
+				var es []wlEntry
+				used := map[int]bool{}
+				for len(es) < 1+rng.Intn(2) {
+					k := 1 + rng.Intn(len(crashKeys))
+					if used[k] {
+						continue
+					}
+					used[k] = true
+					e := wlEntry{Key: k, Size: 32 + rng.Intn(30)}
+					if rng.Intn(4) == 0 {
+						e.Size = 6 + rng.Intn(20)
+					}
+					es = append(es, e)
+				}
+				reqs = append(reqs, es)
+				b++
+			}
+			cfg.Steps = append(cfg.Steps, wlStep{Kind: "cbatch", Reqs: reqs})
 		case x < 62:
 			n := 1
 			if txn {
@@ -1134,7 +1291,7 @@ func runCrash(c *corr.Ctx) error {
 	installHooks()
 	c.Meta("run_module", "RunCrash")
 	c.Meta("exhaustive", false)
-	c.Meta("rule", "small workloads (<= 12 batches: plain Set/Del or transactions of 1-3 keys, 4 keys, values on both sides of ValueThreshold, 1-2 value-log buckets, tiny value-log files and memtables so that both rotate, SyncWrites on/off, forced rotations, gated flushes, one L0 move, one value-log GC, optional manifest rewrites) on a real DB over a recording vfs.FS; every state-changing vfs operation and every verifhook.Crash site is a crash point: the directory image at that instant is reopened with the real Open, every key is read through Get / GetVersionedEntry / a transaction, then rotation + flush of every memtable + GC of every sealed value-log file are forced and the reads repeated after each stage, then a clean reopen. non-trivial = crash point inside a batch or a maintenance step")
+	c.Meta("rule", "small workloads (<= 12 batches: plain Set/Del or transactions of 1-3 keys, in transactional workloads also 2-3 transactions committed concurrently so that one commit batch holds several requests, 4 keys, values on both sides of ValueThreshold, 1-2 value-log buckets, tiny value-log files and memtables so that both rotate, SyncWrites on/off, forced rotations, gated flushes, one L0 move, one value-log GC, optional manifest rewrites) on a real DB over a recording vfs.FS; every state-changing vfs operation and every verifhook.Crash site is a crash point: the directory image at that instant is reopened with the real Open, every key is read through Get / GetVersionedEntry / a transaction, then rotation + flush of every memtable + GC of every sealed value-log file are forced and the reads repeated after each stage, then a clean reopen. non-trivial = crash point inside a batch or a maintenance step")
 	if c.Replay != "" {
 		cases, err := c.ReplayCases()
 		if err != nil {
@@ -1166,6 +1323,27 @@ func runCrash(c *corr.Ctx) error {
 		{Txn: false, Sync: false, Buckets: 1, MemTable: 1 << 20, VlogSize: 160, Threshold: 32, ManRewr: 64 << 20,
 			Steps: []wlStep{{Kind: "batch", Entries: []wlEntry{big(1)}}, {Kind: "batch", Entries: []wlEntry{big(1)}},
 				{Kind: "rot"}, {Kind: "batch", Entries: []wlEntry{big(2)}}, {Kind: "flush"}, {Kind: "batch", Entries: []wlEntry{{Key: 2, Del: true}}}}},
+	}
+	// several requests in one commit batch: an earlier request rotates the value-log file of its
+	// bucket, the last request touches the other bucket only (head persistence per request)
+	kA, kB := 0, 0
+	for i, k := range crashKeys {
+		if kv.ValueLogBucket(kv.InternalKey(kv.CFDefault, k, 1), 2) == 0 {
+			if kA == 0 {
+				kA = i + 1
+			}
+		} else if kB == 0 {
+			kB = i + 1
+		}
+	}
+	if kA != 0 && kB != 0 {
+		one := func(k int) []wlEntry { return []wlEntry{big(k)} }
+		scripts = append(scripts, &wlConfig{Txn: true, Sync: true, Buckets: 2, MemTable: 1 << 20, VlogSize: 160, Threshold: 32,
+			ManRewr: 64 << 20, BatchWait: 5,
+			Steps: []wlStep{{Kind: "batch", Entries: one(kA)}, {Kind: "batch", Entries: one(kA)},
+				{Kind: "cbatch", Reqs: [][]wlEntry{one(kA), one(kB)}},
+				{Kind: "cbatch", Reqs: [][]wlEntry{one(kB), one(kA), one(kB)}},
+				{Kind: "batch", Entries: one(kB)}}})
 	}
 	for i, cfg := range scripts {
 		c.Count("workload_scripted")
